@@ -81,4 +81,18 @@ CHECKS = {
          "(first calls racing on one fresh family): every interleaving with <= 1 preemption (<= 2 in thorough, 3 on one harness) is executed; every "
          "thread's outcome and a sequential call afterwards must equal the twin's.",
     note="atomic step = one line of generated code or the stretch between traced library calls; interleavings inside a step and other interpreters are not covered"),
+ "C12": dict(engine="E2 histories", design_ref="6/C12, 5.2",
+    technique="explicit-state BFS over define-subclass / decode histories on real class hierarchies with a history-computed oracle",
+    text="For three wirings (Config.discriminator, Annotated field of a mixin holder, BasicDecoder) x 14 discriminator settings (field or not, "
+         "include_subtypes/supertypes, variant_tagger_fn none/single/list): BFS over all histories of {define Sub1/Sub2/Sub3 (grandchild), decode each "
+         "tag, missing tag, unknown tag, decode via subclass, four field-less input shapes} until the canonical state space is exhausted (frontier empties "
+         "below the depth bound 6/8): each decode must return the class carrying the tag among the classes defined so far, else the documented error.",
+    note="oracle is computed from the history only (definition order, eligibility, tags); canonical state = defined classes + per-class methods + variant registries"),
+ "C15": dict(engine="E1 schema-space + E2 histories", design_ref="6/C15",
+    technique="exhaustive relational comparison of all entry points over the schema space + BFS over codec/subclass-creation histories",
+    text="(a) every schema of depth <= 1 (2 in thorough) wrapped in a plain and a mixin dataclass x every value: mixin methods, BasicEncoder/Decoder, "
+         "one-shot functions, the class inside List/Dict/Tuple/Optional, as a field of an outer class, and JSON/YAML/MessagePack/orjson codecs must give "
+         "the same result; (b) BFS (depth 4/5) over {create codec for D / List[D] / Outer, define subclass, encode/decode through the oldest and a new "
+         "codec, to_dict, from_dict}: every result equals the result on a fresh family.",
+    note="hooks excluded (C19); format documents compared after parsing with the format's own library, inside the common representable subset"),
 }
